@@ -76,6 +76,8 @@ async def _op(client, what, py=False):
     if py:
         # the same exchange through the pythonic wrapper (which converts every value it hands out)
         w = vworld.PyWrapper(client)
+        if what == "walk":
+            return [vb async for vb in w.walk(vagent.S(SC[:-2]))]
         if what in ("get", "error", "report"):
             return await w.get(vagent.S(SC))
         return await w.multiget([vagent.S(SC), "1.3.6.1.2.1.2.1.0"])
@@ -83,6 +85,8 @@ async def _op(client, what, py=False):
         return vworld.observe(await client.get(O(SC)))
     if what in ("multiget", "big"):
         return [vworld.observe(v) for v in await client.multiget([O(SC), O((1, 3, 6, 1, 2, 1, 2, 1, 0))])]
+    if what == "walk":
+        return [vb async for vb in client.walk(O(SC[:-2]))]     # (the bindings are handed over as they are)
     raise ValueError(what)
 
 
@@ -262,7 +266,8 @@ def overlap_mutant(base, data, k, where):
         if where == "list":
             return vber.tlv(p["tag"], head + val)
         vbs = p["vbs"] or [(SC, vber.T_NULL, b"")]
-        first = vber.tlv(vber.T_SEQ, vber.enc_oid(vbs[0][0]) + val)
+        # "foreign": the value sits in a binding that a walk does not ask for (an OID outside the walked subtree)
+        first = vber.tlv(vber.T_SEQ, vber.enc_oid((1, 3, 6, 1, 2, 1, 9, 1, 0) if where == "foreign" else vbs[0][0]) + val)
         rest = b"".join(vber.enc_varbind(o, t, c) for o, t, c in vbs[1:])
         return vber.tlv(p["tag"], head + vber.tlv(vber.T_SEQ, first + rest))
 
@@ -567,6 +572,12 @@ class _Overlaps:
             for where in ("value", "list"):
                 for k in (1, 2, 6, 10, 14, 18, 22, 26, 31):
                     yield dict(base=list(base), mut=["overlap", k, where])
+        # walks: the chain in a binding the walk asked for and in one it did not, with DEBUG logging on and off
+        for base in (("response", "v2c", "walk"), ("response", "v3n", "walk"), ("inner", "v3p", "walk")):
+            for where in ("value", "foreign"):
+                for k in (2, 10, 18, 22, 26, 31):
+                    for debug in (False, True):
+                        yield dict(base=list(base), mut=["overlap", k, where], debug=debug)
 
 
 class _Shard:
